@@ -104,7 +104,10 @@ class Collector:
 
 
 def _exec_case(mod, case, timeout):
-    if getattr(mod, "ISOLATE", True):
+    iso = getattr(mod, "ISOLATE", True)
+    if isinstance(case, dict) and "_isolate" in case:
+        iso = case["_isolate"]
+    if iso:
         return isolate.run(mod.run_case, case, timeout=timeout)
     try:
         return mod.run_case(case, None)
